@@ -10,6 +10,27 @@ NOTES = (
     "means the analysis could not give a verdict (never a VIOLATION)."
 )
 
-CLAIMED = {}
+CLAIMED = {
+    "C01": {
+        "text": "Decides, for every public psutil.Process/Popen method and public "
+                "module function on each of 8 platform configurations, that no "
+                "call-graph path reaches a signal/setter sink (os.kill, setpriority, "
+                "ioprio/affinity/rlimit setters, Windows kill/suspend/priority "
+                "natives) without executing self._raise_if_pid_reused(); that every "
+                "os.kill target is provably != 0 and >= 0 (guards, callers, "
+                "single-writer invariant of the pid attribute); that sinks receive "
+                "self.pid and the caller's value (SIGSTOP/SIGCONT/SIGTERM/SIGKILL "
+                "for the fixed-signal methods); that _gone/_pid_reused are sticky; "
+                "that the guard compares identities; and that Popen cannot bypass "
+                "it. Necessary structural conditions only: the check-to-kill window "
+                "and creation-time granularity are run-time facts and not decided.",
+        "note": "Trusted: Python's ast; my CFG/dominator construction; the sink "
+                "table (natives named set*/kill/suspend/resume, os.kill, "
+                "resource.prlimit with 3 args); callee resolution of psutil's idioms "
+                "(self._proc.X, _psplatform.X, decorators ignored).",
+        "technique": "CFG dominance + call-graph must-pass-through, backward "
+                     "precondition propagation, def-use",
+    },
+}
 
 NOT_APPLICABLE = {}
